@@ -120,6 +120,8 @@ type program struct {
 	Reexec []reexecSpec `json:"reexec,omitempty"`
 	// RetryAttempt the request object carries into this execution (left by the previous one)
 	Stale int `json:"stale_attempt,omitempty"`
+	// which execution of the Request object this is (0 = the first)
+	Exec int `json:"exec,omitempty"`
 }
 
 type reexecSpec struct {
@@ -637,7 +639,7 @@ func (p *program) executions() []*program {
 	out := []*program{&first}
 	for _, re := range p.Reexec {
 		q := first
-		q.Via, q.Script = re.Via, re.Script
+		q.Via, q.Script, q.Exec = re.Via, re.Script, len(out)
 		out = append(out, &q)
 	}
 	return out
